@@ -57,7 +57,7 @@ class C03(PropBase):
     def gen(self, rng, tier, focus=None):
         quick = tier == "quick"
         out = []
-        per = 30 if quick else 600
+        per = 60 if quick else 1200
         for kind in ("tie-code", "tie-desc", "tie-uuid", "tie-mixed"):
             for _ in range(per):
                 out.append(self.gen_tie(rng, kind))
@@ -71,7 +71,7 @@ class C03(PropBase):
             out.append(self.gen_priced(rng))
         for _ in range(per):
             out.append(self.gen_inexact(rng))
-        n = 500 if quick else 20000
+        n = 1500 if quick else 40000
         for _ in range(n):
             out.append(self.gen_random(rng))
         return out
